@@ -122,7 +122,7 @@ class UniverseStub:
 
     def _conc(self, t):
         c = self.c
-        tt = z3.RealVal(repr(float(t.timestamp())))
+        tt = c.tterm(t)
         return [k for k in c.conc_keys() if c.ceval(z3.Select(UNIVF(tt), c.keyterm(k)), lambda r: r.random() < 0.6, bool)]
 
     def get_assets(self, dt):
